@@ -147,6 +147,26 @@ fn text(class: &str) -> String {
 fn ser<T: yaserde::YaSerialize>(v: &T) -> String {
     yaserde::ser::to_string(v).unwrap_or_else(|e| format!("ERR:{e}"))
 }
+/// a sink that accepts a few bytes and then fails, as a connection that is reset does
+struct Resetting(usize);
+impl std::io::Write for Resetting {
+    fn write(&mut self, buf: &[u8]) -> std::io::Result<usize> {
+        if self.0 == 0 {
+            return Err(std::io::Error::new(std::io::ErrorKind::ConnectionReset, "connection reset"));
+        }
+        let n = buf.len().min(self.0);
+        self.0 -= n;
+        Ok(n)
+    }
+    fn flush(&mut self) -> std::io::Result<()> {
+        Ok(())
+    }
+}
+/// serialise into a failing sink first, then normally: a failed attempt must not change what the next one yields
+fn ser_after_failure<T: yaserde::YaSerialize>(v: &T) -> String {
+    let first = yaserde::ser::serialize_with_writer(v, Resetting(12), &yaserde::ser::Config::default()).is_ok();
+    format!("first_ok={first};{}", ser(v))
+}
 fn de_dbg<T: yaserde::YaDeserialize + std::fmt::Debug>(xml: &str) -> String {
     match yaserde::de::from_str::<T>(xml) {
         Ok(v) => format!("{v:?}"),
@@ -224,6 +244,8 @@ pub fn run(case: &Value) -> Vec<String> {
             // a clone shares the value; it must not share (or must forward through) anything that changes the verdict
             let shared = wrapped.clone();
             obs("check_hist_clone", chk_hist(&bare), chk_hist(&shared));
+            obs("ser_after_failure", ser_after_failure(&bare), ser_after_failure(&wrapped));
+            obs("ser_clone_after_failure", ser(&bare), ser(&wrapped.clone()));
             let xml = ser(&bare);
             obs("de_root", de_dbg::<Attrs>(&xml), de_dbg::<MultiRef<Attrs>>(&xml));
             if let Ok(d) = yaserde::de::from_str::<MultiRef<Attrs>>(&xml) {
@@ -257,6 +279,7 @@ pub fn run(case: &Value) -> Vec<String> {
             obs("debug_field", format!("{bare:?}").replace("NestedBare", "Nested"), format!("{wrapped:?}").replace("NestedWrapped", "Nested"));
             obs("check_field", chk(&bare), chk(&wrapped));
             obs("check_hist_field", chk_hist(&bare), chk_hist(&wrapped));
+            obs("ser_field_after_failure", ser_after_failure(&bare), ser_after_failure(&wrapped));
             let xml = ser(&bare);
             obs("de_field", de_dbg::<NestedBare>(&xml).replace("NestedBare", "Nested"), de_dbg::<NestedWrapped>(&xml).replace("NestedWrapped", "Nested"));
             obs("default_field", format!("{:?}", NestedBare::default()).replace("NestedBare", "Nested"), format!("{:?}", NestedWrapped::default()).replace("NestedWrapped", "Nested"));
